@@ -43,11 +43,11 @@ def _dup_causes(case):
             why.add("case")         # spellings differ in letter case only
         if " % " in a:
             # fparser's spelling of a structure access kept as a CodeBlock: it
-            # comes from a user-kernel call whose first argument is a literal
+            # comes from a kernel call that also has a literal argument
             for call in case["source_invoke"]:
-                if call[0] in gen.LFRIC_KERNELS and \
-                        _RE_LITERAL.match(call[1].replace(" ", "")) and \
-                        any(_canon(x) == _canon(a) for x in call[2:]):
+                if any(_RE_LITERAL.match(x.replace(" ", ""))
+                       for x in call[1:]) and \
+                        any(_canon(x) == _canon(a) for x in call[1:]):
                     why.add("codeblock")
         if not why:
             return None
@@ -75,9 +75,9 @@ def m_member_case(case, clause, detail, finding):
 
 
 def m_codeblock(case, clause, detail, finding):
-    '''LFRic PSyIR-based algorithm layer only: a structure access in a
-    user-kernel call whose first argument is a literal is kept as a CodeBlock
-    and passed again although an earlier call already passed that object.'''
+    '''LFRic PSyIR-based algorithm layer only: a structure access in a kernel
+    call that also has a literal argument is kept as a CodeBlock and passed
+    again although an earlier call already passed that object.'''
     return case.get("api") == "lfric" and _dup_match(case, clause, "codeblock")
 
 
